@@ -13,6 +13,19 @@ CLAIMED = {
             "§3 C09"),
 }
 
+CLAIMED.update({
+    "C01": ("exploration",
+            "bounded-exhaustive enumeration (complete mixed-radix products of tables over spacing x ordinate alphabets, small-scope argument for N<=5) against an independent long-double Steffen reference model",
+            "Every table with N=3,4 (quick; N=5 thorough) over a 6-letter spacing alphabet (ratios to 1e18) and an 11-letter ordinate alphabet (mixed sign, 1e-20..1e20, plateaus, spikes) is built with the real constructor and queried at knots, nextafter neighbours, 16 interior points per segment and the extrapolation zone; knot reproduction is bitwise, overshoot/monotonicity/continuity/derivative consistency are checked against forward-error bounds and against a reference written from Steffen's paper. Each Steffen segment depends on at most three neighbouring intervals plus a boundary flag, so N<=5 realises every local configuration of longer tables; long tables check position independence. The 2D part enumerates every cell x every 4-tuple of corner values.",
+            "Nothing is concluded for ordinates/spacings outside the alphabets; tolerance T2 = 32u(|y_j|+|y_j+1|) is derived from the rounding model, not fitted. Private fields are read with -fno-access-control only to reset the locator state before each query.",
+            "§3 C01"),
+    "C08": ("model_checking",
+            "explicit-state BFS over Set_Prefactor/Multiply histories on the real object (state = prefactor bits, reference model = one double) x complete enumeration of tables and ordered limit pairs, oracle = exact antiderivative/extrema of the independent Steffen reference",
+            "All prefactor histories to depth 2 (quick) / 3 (thorough) over 12 operations are executed on the real object and compared with a one-double model; in every reached state (core tables) and in 12 representative states (every table with N=3,4 over reduced alphabets; N<=6 thorough) every ordered pair of a limit alphabet (knots, knot+-ulp, quarter points, extrapolation zone) goes through Integrate (both orders), Local_Minimum, Local_Maximum, Global_*: antisymmetry bitwise, additivity over all triples, min*len<=I<=max*len, agreement with the exact integral/extrema of the reference curve, lattice containment, difference quotient in the upper limit.",
+            "Alphabets as stated in the evidence; extrema of the reference curve include stationary points of the edge cubics inside the extrapolation zones. Tolerances are forward-error bounds (sum of magnitudes of antiderivative terms anchored at the segment's left knot).",
+            "§3 C08"),
+})
+
 NOT_APPLICABLE = {
 }
 
